@@ -589,13 +589,16 @@ def gen_direct(rng, size=None, flavour=None):
         for ri, r in enumerate(rings):
             if not r.get("dropped"):
                 s.append(["submit", ri, 0])
+                if r["alive"]:
+                    r["out"].update(r["queued"])
+                r["queued"] = []
         advance(2 * L + 200)
         for ri, r in enumerate(rings):
             if r.get("dropped"):
                 continue
             s.append(["cq_new", ri])
             s.append(["sync", ri])
-            for _ in range(40):
+            for _ in range(len(r["out"]) + len(r["queued"]) + 2):
                 s.append(["next", ri])
             s.append(["sync", ri])
             s.append(["next", ri])
@@ -709,7 +712,10 @@ def sim_to_direct(case, obs):
                 problems.append("step %d: command %s was not executed" % (k, c))
                 break
             script.append(c)
-            out.append(outs.pop(0))
+            o = outs.pop(0)
+            if c[0] == "new" and isinstance(o, int) and o >= 0:
+                o += ring_off            # the restarted software numbers its rings from 0 again
+            out.append(o)
             if c[0] == "open":
                 nfd += 1
             if c[0] == "new" and c[1] > 0:
